@@ -85,5 +85,19 @@ PROPS = {
         "assumptions": ["the resolved ValidatorSchema is taken from Rust (schema parsing/resolution is C09's subject)",
                         "values are concrete: the unknown/residual branches of the Rust checkers accept unconditionally and are outside C11",
                         "an extension value is identified with the call of its constructor (its return type is its own extension type)"],
+    "C08": {
+        "streams": [("c08", 1200, 300000)],
+        "definitional": False,
+        "rule": "(a) random histories of 1-12 operations (add, add_static, add_template, link, unlink, remove_static, remove_template, merge with/without "
+                "renaming, add of a template-linked policy) with ids from a pool of 5 (incl. policy0/policy1, the ids merge generates) over two registers, through "
+                "cedar_policy_core::ast::PolicySet and the public cedar_policy::PolicySet; templates with every ==/in/is..in slot form, exact/missing/extra bindings; "
+                "after each op: ok/error kind, renaming, sorted listing from policies()/templates()/get_linked_policies(), authorization on 2 requests. "
+                "(b) linked policy vs Rust parse of the textually substituted static policy on random worlds. (c) all histories of length <=2 (quick) / <=3 (thorough) "
+                "over 2 ids and a 24-letter op alphabet, merge partner fixed. non-trivial = history with >=1 failed op and >=1 successful link, or a linkeq case; "
+                "distinct by request text",
+        "theorems": ["link_eq_subst", "link_outcome_eq_subst", "link_ok_iff", "pset_link_ok_iff", "op_inv", "op_fail_unchanged", "no_panic", "history_inv", "authorize_considers_exactly_links", "api_add_is_add_static", "api_op_inv", "api_history_inv", "refines_spec_partial"],
+        "assumptions": ["merge_policyset is covered by the correspondence and the harness oracle only (MergeInv, RefinesSpec, ApiProjection are stated as `def : Prop`, not proved)",
+                        "core-only histories outside the public API's envelope (core link on a static policy's id, core add of a template-linked Policy, slot-less template) are compared with the model but excluded from the statement's checks; they can break the invariant and reach the panic in unlink",
+                        "source locations and the lossless (text/EST/PST) copies kept by the API layer are not modelled"],
     },
 }
